@@ -28,7 +28,7 @@ DISPATCH = ("op::Op::apply", "inner_op::pushpop::do_the_push", "inner_op::pushpo
             "inner_op::stack::stack_fwd", "inner_op::stack::stack_inv")
 
 
-@rule("R-PIPE-ORDER", ["C03"])
+@rule("R-PIPE-ORDER", ["C03", "C02"])
 def r_pipe_order(cx):
     c = pipeline_ctor(cx)
     if c is None or not c.fwd or not c.inv:
@@ -444,6 +444,12 @@ def r_underflow_guard(cx):
             g = [x for x in guards if f.dominates(x["ok"], bb) and _guard_applies(f, x, bb, bb in pops)]
             okg = bool(g)
             fail_ok = okg and all(_fails_loudly(f, x["fail"]) for x in g[:1])
+            loose = [x for x in g if x.get("op") in ("Le", "Gt")]
+            if g and len(loose) == len(g):
+                cx.ob("R-UNDERFLOW-GUARD", "%s/site%d/exact" % (fn, k), False,
+                      "the depth test protecting the stack access in %s also fails when the stack holds exactly as "
+                      "many levels as the sub-command needs (`depth <= demand`): a valid program is treated as an "
+                      "underflow, all operands become NaN" % fn, cx.where(f.term(g[0]["bb"])["span"]))
             cx.ob("R-UNDERFLOW-GUARD", "%s/site%d" % (fn, k), okg and fail_ok,
                   "stack access in %s is preceded by a depth test whose failing side marks the operands with NaN and "
                   "returns 0" % fn if okg and fail_ok else
@@ -483,9 +489,9 @@ def _length_guards(f):
                 op = {"Lt": "Gt", "Gt": "Lt", "Le": "Ge", "Ge": "Le"}[op]
             # now: len op demand
             if op in ("Lt", "Le"):
-                out.append({"fail": true_succ, "ok": false_succ})
+                out.append({"fail": true_succ, "ok": false_succ, "op": op, "bb": bb})
             else:
-                out.append({"fail": false_succ, "ok": true_succ})
+                out.append({"fail": false_succ, "ok": true_succ, "op": op, "bb": bb})
         elif c[0] == "call" and isinstance(c[1], str) and c[1].endswith("::is_empty"):
             out.append({"fail": true_succ, "ok": false_succ, "single": bb})
     return [g for g in out if g["ok"] is not None and g["fail"] is not None]
